@@ -118,15 +118,17 @@ class LPM:
         return None
 
     @staticmethod
-    def run_stmts(stmts, value, out, name='backend'):
+    def run_stmts(stmts, value, out, name='backend', fn=None):
         """statements executed for this backend value, in order; stops at a raise. Returns False when it raised."""
+        from .. import flow as _flow
         for st in stmts:
-            if isinstance(st, ast.If) and any(A.is_name(x, name) for x in ast.walk(st.test)):
-                r = LPM.eval_test(st.test, value, name)
+            test = _flow.expand(st.test, fn) if (fn is not None and isinstance(st, ast.If)) else getattr(st, 'test', None)
+            if isinstance(st, ast.If) and any(A.is_name(x, name) for x in ast.walk(test)):
+                r = LPM.eval_test(test, value, name)
                 if r is None:
                     out.append(('undecided', st))
                     return True
-                if not LPM.run_stmts(st.body if r else st.orelse, value, out, name):
+                if not LPM.run_stmts(st.body if r else st.orelse, value, out, name, fn):
                     return False
             elif isinstance(st, ast.Raise):
                 out.append(('raise', st))
@@ -137,7 +139,8 @@ class LPM:
 
     def dispatch(self):
         """the statement(s) of the function body that dispatch on `backend` and define the adapters"""
-        d = [n for n in self.fn.body if isinstance(n, ast.If) and any(A.is_name(x, 'backend') for x in ast.walk(n.test)) and any(
+        from .. import flow as _flow
+        d = [n for n in self.fn.body if isinstance(n, ast.If) and any(A.is_name(x, 'backend') for x in ast.walk(_flow.expand(n.test, self.fn))) and any(
             isinstance(x, A.FUNC_TYPES) for x in ast.walk(n))]
         if not d:
             raise AnalysisError('undecidable shape: backend dispatch chain not found')
@@ -159,7 +162,7 @@ class LPM:
         self.else_body = []
         for value in self.BACKENDS + [self.UNKNOWN]:
             out = []
-            self.run_stmts(disp, 'no-such-backend' if value is self.UNKNOWN else value, out)
+            self.run_stmts(disp, 'no-such-backend' if value is self.UNKNOWN else value, out, fn=self.fn)
             stmts = [st for k, st in out if k in ('stmt', 'raise')]
             if value is self.UNKNOWN:
                 self.else_body = stmts
